@@ -129,8 +129,13 @@ class SourceFile:
         self.filename = filename
         self.source = self.filename.read_text("utf-8")
 
-    def rewrite(self):
+    def rewrite(self, validate=None):
         new_code = self.new_code()
+
+        if validate is not None:
+            # the new code is computed again here (the formatter runs again):
+            # never replace a file with something which is not valid
+            validate(new_code)
 
         with open(self.filename, "bw") as code:
             code.write(new_code.encode())
@@ -222,9 +227,9 @@ class ChangeRecorder:
             changes.update(change.change_id for change in file.replacements)
         return len(changes)
 
-    def fix_all(self):
+    def fix_all(self, validate=None):
         for file in self._source_files.values():
-            file.rewrite()
+            file.rewrite(validate)
 
     def virtual_write(self):
         for file in self._source_files.values():
